@@ -160,6 +160,7 @@ fn run(prog: &Program, opt: &HashMap<String, Vec<String>>) {
 		it.depth = 0;
 		it.path_no = paths;
 		it.div_zero_forks = false;
+		it.pending_axioms.clear();
 		let r = it.call_fn(&def, None, vec![], HashMap::new());
 		let mut stop = false;
 		match r {
